@@ -120,6 +120,13 @@ fn window_block(cfg: &Cfg, out: &mut Vec<String>) {
 	}
 }
 
+/// bit pattern of a value with every NaN mapped to one pattern: which NaN an operation returns (sign,
+/// payload) is not specified - the compiler may commute the operands of an addition - so two builds of the
+/// same source may legitimately differ there
+fn nbits(f: ValueType) -> u64 {
+	if f.is_nan() { u64::MAX } else { f.to_bits() as u64 }
+}
+
 // ---- element type with drop glue: every value has an id, the ledger knows whether it is alive
 thread_local! { static LEDGER: std::cell::RefCell<(Vec<u8>, Vec<String>)> = const { std::cell::RefCell::new((Vec::new(), Vec::new())) }; }
 #[derive(Debug)]
@@ -337,7 +344,7 @@ fn methods_block(cfg: &Cfg, out: &mut Vec<String>) {
 						for _ in 0..reps {
 							for x in s {
 								let o = m.next(x);
-								t.push_str(&format!("{:?}", o.floats().iter().map(|f| f.to_bits()).collect::<Vec<_>>()));
+								t.push_str(&format!("{:?}", o.floats().iter().map(|f| nbits(*f)).collect::<Vec<_>>()));
 								t.push_str(&o.show());
 								if let Some(pk) = m.peek() {
 									t.push_str(&pk.show());
@@ -439,7 +446,7 @@ fn indicators_block(cfg: &Cfg, out: &mut Vec<String>) {
 								for rep in 0..(if ci == 0 { 12 } else { 3 }) {
 									for k in &idx {
 										let r = i.next(&ks[(*k + rep) % ks.len()]);
-										t.push_str(&format!("{:?}{:?}", r.values().iter().map(|v| v.to_bits()).collect::<Vec<_>>(), r.signals()));
+										t.push_str(&format!("{:?}{:?}", r.values().iter().map(|v| nbits(*v)).collect::<Vec<_>>(), r.signals()));
 									}
 								}
 								if !cfg.outputs_only {
